@@ -85,7 +85,7 @@ mkrsa(const json_t *jwk)
         break;
 
     default:
-        break;
+        return NULL;
     }
 
     if (!check_public_exponent(bn)) {
